@@ -77,6 +77,7 @@ def run(ctx):
     for tkey in specgen.SET_KINDS:
         for inner in (apistream.reject_kinds(tkey) or [None])[: (2 if ctx.tier == 'quick' else 50)]:
             sweep.append(apistream.gen_sandwich(rng, tkey, inner)[0])
+        sweep.append(apistream.gen_sandwich(rng, tkey, 'origin_type')[0])     # rejected on the origin reference's type
     sweep.append(apistream.d22_witness())
     for explicit in (None, 40, 1):
         for before in (True, False):
@@ -131,6 +132,56 @@ def run(ctx):
             ctx.sample({'stream': 'K-reject', 'rejected_calls': nrej,
                         'rejected': [(s['op'], s.get('type'), o[1]) for s, o in zip(prog, r['outs']) if o[0] == 'err'][:6]})
     failed_write_histories(ctx)
+    odd_argument_calls(ctx)
+
+
+def odd_argument_calls(ctx):
+    """Calls with argument types the program language of the model does not cover (a non-str dataset name, a path object, an
+    arbitrary object as units ...). Whatever the library does with them: IF the call raises, the file written afterwards must be the
+    file of the same history without that call."""
+    import pathlib
+    import numpy as np
+    import impl
+    from dliswriter import DLISFile
+
+    def build(odd):
+        df = DLISFile()
+        lf = df.add_logical_file()
+        lf.add_origin('ORIGIN', file_set_number=1, creation_time='2020/01/01 00:00:00')
+        a = lf.add_channel('DEPTH', data=np.arange(4, dtype=np.float64))
+        raised = None
+        if odd is not None:
+            try:
+                odd(lf)
+            except Exception as e:  # noqa
+                raised = type(e).__name__
+        b = lf.add_channel('RPM', data=np.arange(4, dtype=np.float32))
+        lf.add_frame('F', channels=[a, b])
+        lf.add_zone('Z')
+        return df, raised
+    odds = {
+        'channel dataset_name=int': lambda lf: lf.add_channel('RPM', data=np.arange(4.0), dataset_name=5),
+        'channel dataset_name=Path': lambda lf: lf.add_channel('RPM', data=np.arange(4.0), dataset_name=pathlib.PurePosixPath('/x/RPM')),
+        'channel units=object': lambda lf: lf.add_channel('RPM', data=np.arange(4.0), units=object()),
+        'channel data=list': lambda lf: lf.add_channel('RPM', data=[1, 2, 3, 4]),
+        'channel cast_dtype=str': lambda lf: lf.add_channel('RPM', data=np.arange(4.0), cast_dtype='float32'),
+        'zone name=bytes': lambda lf: lf.add_zone(b'Z'),
+        'zone domain=object': lambda lf: lf.add_zone('Z', domain=object()),
+        'frame channels=generator': lambda lf: lf.add_frame('G', channels=(c for c in [])),
+        'axis coordinates=set': lambda lf: lf.add_axis('AX', coordinates={1, 2}),
+    }
+    ref = impl.outcome(lambda: impl.write_real(build(None)[0]))
+    for label, odd in odds.items():
+        df, raised = build(odd)
+        ctx.count('K-odd-arguments', key=label)
+        ctx.stat('K-odd-arguments', 'raised' if raised else 'accepted')
+        if not raised:
+            continue
+        o = impl.outcome(lambda: impl.write_real(df))
+        if o[0] != ref[0] or (o[0] == 'ok' and o[1]['file'] != ref[1]['file']):
+            ctx.violation('rejected-call-with-an-odd-argument-left-a-trace', {'call': label, 'raised': raised, 'write': o[0] if o[0] == 'ok' else o,
+                                                                              'len': len(o[1]['file']) if o[0] == 'ok' else None,
+                                                                              'reference_len': len(ref[1]['file']) if ref[0] == 'ok' else None})
 
 
 def failed_write_histories(ctx):
@@ -143,12 +194,12 @@ def failed_write_histories(ctx):
     from dliswriter.utils.high_compatibility_mode import high_compatibility_mode
     rng = ctx.rng('failed-writes')
 
-    def spec(indexed, second_frame):
+    def spec(indexed, second_frame, value_dim=None):
         df = DLISFile()
         lf = df.add_logical_file()
         lf.add_origin('ORIGIN', file_set_number=1, creation_time='2020/01/01 00:00:00')
         a = lf.add_channel('DEPTH', units='m')
-        b = lf.add_channel('VALUE')
+        b = lf.add_channel('VALUE', **({'dimension': value_dim} if value_dim else {}))
         lf.add_frame('MAIN', channels=[a, b], index_type='BOREHOLE-DEPTH' if indexed else None)
         if second_frame:
             c = lf.add_channel('OTHER')
@@ -156,7 +207,7 @@ def failed_write_histories(ctx):
         return df
 
     for k in range(24 if ctx.tier == 'quick' else 240):
-        cause = rng.choice(['missing', 'lengths', 'window', 'hc_nonuniform', 'hc_signed', 'hc_nonuniform'])
+        cause = rng.choice(['missing', 'lengths', 'window', 'hc_nonuniform', 'hc_signed', 'hc_nonuniform', 'dimension', 'dimension'])
         indexed = cause == 'hc_nonuniform' or rng.random() < 0.5
         second = rng.random() < 0.5
         hc = cause.startswith('hc_')
@@ -177,13 +228,20 @@ def failed_write_histories(ctx):
             bad['DEPTH'] = d
         elif cause == 'hc_signed':
             bad['VALUE'] = np.arange(n, dtype=np.int16)
+        vdim = None
+        if cause == 'dimension':
+            # a 2-D channel with a user-supplied DIMENSION: data wider than declared is refused, data of the declared width accepted
+            vdim = [3]
+            good['VALUE'] = np.arange(n * 3, dtype=np.float32).reshape(n, 3)
+            bad = dict(good)
+            bad['VALUE'] = np.arange(n * 4, dtype=np.float32).reshape(n, 4)
 
         def go(df, data, kw):
             if hc:
                 with high_compatibility_mode():
                     return impl.outcome(lambda: impl.write_real(df, data=data, **kw))
             return impl.outcome(lambda: impl.write_real(df, data=data, **kw))
-        df = spec(indexed, second)
+        df = spec(indexed, second, vdim)
         o1 = go(df, bad, kw_bad)
         ctx.count('K-failed-write', key=(k, cause, indexed, second))
         ctx.stat('K-failed-write', 'cause_' + cause)
@@ -192,7 +250,7 @@ def failed_write_histories(ctx):
             ctx.stat('K-failed-write', 'first_write_did_not_fail')
             continue
         o2 = go(df, good, kw_good)
-        of = go(spec(indexed, second), good, kw_good)
+        of = go(spec(indexed, second, vdim), good, kw_good)
         if o2[0] != of[0] or (o2[0] == 'ok' and o2[1]['file'] != of[1]['file']):
             a, b = (o2[1]['file'] if o2[0] == 'ok' else b''), (of[1]['file'] if of[0] == 'ok' else b'')
             pos = next((j for j in range(min(len(a), len(b))) if a[j] != b[j]), min(len(a), len(b)))
